@@ -129,8 +129,8 @@ func (c *Ctx) Emit(opsBody string, implBody string, nontrivial bool) int {
 
 func (c *Ctx) OracleFail(id int, scope, what, op string) {
 	if len(c.Stats.Oracle) < 200 {
-		if len(op) > 2000 {
-			op = op[:2000] + "…"
+		if len(op) > 200000 {
+			op = op[:200000] + "…"
 		}
 		c.Stats.Oracle = append(c.Stats.Oracle, OracleFailure{id, scope, what, fmt.Sprintf("%s %d %s", c.Family, id, op)})
 	}
